@@ -8,11 +8,14 @@ def run(tier, seed):
     add_frame(rep, "C13", want_si=True)
     from ..propbase import deductive
     deductive(rep, "C13", ["markdown_it.ruler.Ruler.__compile__", "markdown_it.ruler.Ruler.getRules"], "contracts.ruler", select=lambda q, ob, rel: True)
+    from ..propbase import gen_universe
+    gen_universe(rep, "vf.checks:c13_preempt", "vf.checks:gen_c13", tier, "MarkdownIt.render on a shared instance", "render(A) suspended at library line boundaries with render(B) run to completion in between: both results equal the sequential ones; instance unchanged afterwards",
+                 ["commonmark", "cm+table+strike"], "pairs (A, B) over 8 probe documents x {never-parsed, warmed-up instance} x ~40 (thorough ~400) suspension points spread over all line events of A; B atomic", "nested execution at line boundaries", timeout_s=120)
     rep.explanation = (
         "(1) Frame: the only instance state written during a parse is Ruler.__cache__ (FRAME obligations over all write sites), so threads and nested "
         "parses share nothing else. (2) Strong invariant SI: every store to self.__cache__ in getRules/__compile__ publishes None or a local table that "
         "no later statement mutates, and nothing mutates through the field or an alias of it - so no call can observe a half-initialised chain. "
-        "(3) The published value is the complete table: __compile__'s postcondition cache[c] == Filter(rules, c) for every c, and getRules returns Filter(rules, chain) under RI (pyvc). Composition (Owicki-Gries: reads of __cache__ yield None or the unique valid value at any interleaving) is not machine-checked.")
+        "(3) The published value is the complete table: __compile__'s postcondition cache[c] == Filter(rules, c) for every c, and getRules returns Filter(rules, chain) under RI (pyvc). Composition (Owicki-Gries: reads of __cache__ yield None or the unique valid value at any interleaving) is not machine-checked. Bounded stand-in: nested execution of a second render at line boundaries of the first, on never-parsed and warmed-up instances (every interleaving with B atomic at the sampled points).")
     rep.trusted_base += ["vf/frame.py region table and publication dataflow", "a store/load of one attribute is atomic under the GIL"]
     rep.assumptions += ["configuration is not mutated concurrently (the property's own hypothesis)", "calls into mdurl/re/functools.cache are atomic and content-pure",
                        "Owicki-Gries soundness (composition step, not machine-checked)"]
